@@ -1,6 +1,7 @@
 package c11
 
 import (
+	"os"
 	"errors"
 	"fmt"
 	"sort"
@@ -368,6 +369,10 @@ func Run(r *ev.Run) {
 	r.Rule = "(1) explicit-state BFS over record/broadcast/remove/connect/disconnect histories: every transition replayed on a fresh real teamserver with real handler goroutines parked on scripted websocket connections under the controlled scheduler (default schedule), each operator's received frames compared with an event-log reference model after every step; (2) every write index x fault kind on one operator's transport x interleavings of a second broadcaster; (3) every schedule within the preemption bound of two concurrent broadcasters (and a joining operator). distinct = distinct observations"
 	r.Assume("a stalled transport is modelled as an arbitrarily delayed write that finally fails (what TCP delivers); a write that never returns is outside the model",
 		"2 operators, 2 agents, 2 listener names; preemption bound as reported")
+	if os.Getenv("VERIF_RACE_PASS") != "" {
+		runFree(r)
+		return
+	}
 	if inBFS() {
 		runHistories(r) // worker: processes its shard and exits
 		return
@@ -384,8 +389,95 @@ func Run(r *ev.Run) {
 	fe, fp := runFaults(r)
 	se, sp := runSchedules(r)
 	re, rp := runReplayVsRemove(r)
-	r.Eval(int(fe + se + re))
-	r.AddStates(res.States+fp+sp+rp, res.Transitions+fp+sp+rp, res.Transitions+fe+se+re)
+	je, jp := runJoinVsRegister(r)
+	r.Eval(int(fe + se + re + je))
+	r.AddStates(res.States+fp+sp+rp+jp, res.Transitions+fp+sp+rp+jp, res.Transitions+fe+se+re+je)
 }
 
 func inBFS() bool { return parTag() != "" }
+
+// Part 3c: an operator authenticates while the listener registers a new agent.  The
+// live sessions are replayed from the session table, not from the retained log (the
+// free-running race pass named the table as a racy location no other scenario
+// explored): whatever the interleaving, the operator who is already in must be told
+// exactly once, the one who is joining at least once, and nothing may panic or block.
+func runJoinVsRegister(r *ev.Run) (int64, int64) {
+	bound := 2
+	if r.Thorough() {
+		bound = 3
+	}
+	r.Bounds["preemption_bound_join_vs_register"] = bound
+	outcomes := map[string]bool{}
+	const idB = 0x00c11b02
+	t := explore.Tree{Bound: bound, Deadline: time.Now().Add(5 * time.Minute)}
+	t.Run(func(c *explore.Chooser) {
+		ts := seam.New(seam.Options{})
+		defer ts.Close()
+		ts.MustRegister(idA, 1)
+		v := preAuth(ts.T, "V", "op2")
+		s := vsched.New(c, 20000, "EventsList", "Clients", "Authenticated", "Agents", "sync.Mutex")
+		u := fake.NewWS("U")
+		ts.T.Clients.Store("U", &server.Client{GlobalIP: "10.1.1.1:5", Connection: u.Conn, Packager: packager.NewPackager()})
+		u.SendText(fmt.Sprintf(`{"Head":{"Event":1,"User":"op1"},"Body":{"SubEvent":3,"Info":{"User":"op1","Password":"%s"}}}`, digest("pw1")))
+		regDone := false
+		regBad := ""
+		s.Spawn("join-U", func() { ts.T.VerifHandleRequest("U") })
+		s.Spawn("listener", func() {
+			if res := ts.Register(idB, 2); res.Panic != nil || res.Status != 200 {
+				regBad = fmt.Sprintf("registration: status=%d panic=%v", res.Status, res.Panic)
+			}
+			regDone = true
+		})
+		s.Spawn("closer", func() {
+			s.Block("closer waits for the registration and for U's replay", func() bool { return regDone && idle(u.Raw) })
+			u.Raw.ClosePeer()
+		})
+		s.Run()
+		vg, vbad := tags(v)
+		ug, ubad := tags(u)
+		tagB := fmt.Sprintf("new:%08x", idB)
+		count := func(l []string, x string) int {
+			n := 0
+			for _, y := range l {
+				if y == x {
+					n++
+				}
+			}
+			return n
+		}
+		obs := fmt.Sprintf("v:new(B)=%d u:new(B)=%d u:new(A)=%d", count(vg, tagB), count(ug, tagB), count(ug, fmt.Sprintf("new:%08x", idA)))
+		outcomes[obs] = true
+		detail := map[string]any{"choices": c.Choices(), "schedule_tail": tail(s.Trace, 40), "v_received": vg, "u_received": ug}
+		switch {
+		case len(s.Panics) > 0:
+			r.Violate("sched/panic/"+ev.Normalize(s.Panics[0]), s.Panics[0], detail)
+		case regBad != "":
+			r.Violate("sched/registration-failed-during-join", regBad, detail)
+		case s.Deadlock:
+			r.Violate("sched/deadlock", s.DeadlockWhy, detail)
+		case s.HorizonHit:
+			r.Violate("sched/horizon", "did not finish", detail)
+		case len(s.Held()) > 0:
+			r.Violate("sched/lock-held", fmt.Sprint(s.Held()), detail)
+		case vbad != "" || ubad != "":
+			r.Violate("sched/frame", vbad+ubad, detail)
+		case count(vg, tagB) != 1:
+			r.Violate("sched/broadcast-not-exactly-once", fmt.Sprintf("authenticated operator V was told %d times about the new session: %v", count(vg, tagB), vg), detail)
+		case count(ug, tagB) == 0:
+			r.Violate("sched/joining-operator-misses-session", fmt.Sprintf("U authenticated while the agent registered and was never told about it: %v", ug), detail)
+		case count(ug, fmt.Sprintf("new:%08x", idA)) != 1:
+			r.Violate("sched/joining-operator-replay-sessions", fmt.Sprintf("U's replay must hold the session that existed before exactly once: %v", ug), detail)
+		}
+	})
+	if t.Err != nil {
+		r.Violate("harness/nondeterminism", t.Err.Error(), nil)
+	}
+	if t.Capped {
+		r.NotExhaustive("join-vs-register scenario stopped by the internal deadline")
+	}
+	for o := range outcomes {
+		r.Outcome("sched-join-register/" + o)
+	}
+	r.Extra["schedules_join_vs_register"] = map[string]any{"executions": t.Executions, "choice_points": t.Points, "distinct_observations": len(outcomes), "preemption_bound": bound}
+	return t.Executions, t.Points
+}
